@@ -847,6 +847,9 @@ func UnmarshalGenericNode(value *yaml.Node) (Type, error) {
 				if err != nil {
 					return nil, err
 				}
+				if typeArg == nil {
+					return nil, parseError(v, "type null is only supported in unions")
+				}
 
 				simpleType.TypeArguments = append(simpleType.TypeArguments, typeArg)
 			} else {
@@ -854,6 +857,9 @@ func UnmarshalGenericNode(value *yaml.Node) (Type, error) {
 					typeArg, err := UnmarshalTypeYAML(c)
 					if err != nil {
 						return nil, err
+					}
+					if typeArg == nil {
+						return nil, parseError(c, "type null is only supported in unions")
 					}
 
 					simpleType.TypeArguments = append(simpleType.TypeArguments, typeArg)
